@@ -101,7 +101,7 @@ func init() {
 		var mu sync.Mutex
 		errs := 0
 		sent := map[int]bool{}
-		send := func(id int) {
+		build := func(id int) string {
 			// rng is shared by the sender goroutines: rand.Rand is not safe for concurrent use
 			mu.Lock()
 			n := 1 + rng.Intn(200)
@@ -109,8 +109,10 @@ func init() {
 				n = 1 + rng.Intn(20000)
 			}
 			mu.Unlock()
-			msg := fmt.Sprintf("{%d:%d:%s}", id, n, strings.Repeat("x", n))
-			e := tr.Send(nil, []byte(msg))
+			return fmt.Sprintf("{%d:%d:%s}", id, n, strings.Repeat("x", n))
+		}
+		sendBytes := func(id int, b []byte) {
+			e := tr.Send(nil, b)
 			mu.Lock()
 			sent[id] = true
 			if e != nil {
@@ -118,6 +120,8 @@ func init() {
 			}
 			mu.Unlock()
 		}
+		send := func(id int) { sendBytes(id, []byte(build(id))) }
+		modified := 0 // messages whose bytes, as the caller holds them, were changed by the transport
 		rotations := 0
 		rotate := func(wait bool) {
 			rotations++
@@ -168,6 +172,32 @@ func init() {
 			wg.Add(1)
 			go func(g int) {
 				defer wg.Done()
+				if g%2 == 1 {
+					// this sender hands over consecutive sub-slices of ONE batch buffer it owns (capacity beyond the
+					// message: the bytes of its next messages). The transport is given the message to write, not the
+					// memory behind it: the batch must be as it was afterwards, and every message intact in the file.
+					var batch []byte
+					var cut []int
+					for _, id := range ids[g] {
+						batch = append(batch, build(id)...)
+						cut = append(cut, len(batch))
+					}
+					orig := append([]byte(nil), batch...)
+					a := 0
+					for k, id := range ids[g] {
+						sendBytes(id, batch[a:cut[k]])
+						a = cut[k]
+						if id%3 == 0 {
+							time.Sleep(time.Duration(seeds[g]%200) * time.Microsecond)
+						}
+					}
+					if string(orig) != string(batch) {
+						mu.Lock()
+						modified++
+						mu.Unlock()
+					}
+					return
+				}
 				for _, id := range ids[g] {
 					send(id)
 					if id%3 == 0 {
@@ -218,7 +248,7 @@ func init() {
 		t.S("dup")
 		t.N(uint64(dup))
 		t.S("garbled")
-		t.N(uint64(garbled))
+		t.N(uint64(garbled + modified))
 		return t.String()
 	}
 }
